@@ -345,6 +345,9 @@ def call_builtin(eng, p, args, kwargs, fr, node):
         raise Unsupported(name)
     if name == "os.path.join":
         return SV("V", T.pjoin(*[eng.as_V(a) for a in args]), meta={"path": True})
+    if name == "os.path.split" and len(args) == 1:
+        pv = eng.as_V(args[0])
+        return mk_tuple([mk_V(T.pdir(pv)), mk_V(T.pbase(pv))])
     if name == "print":
         return NONE
     if name == "type":
@@ -445,7 +448,7 @@ def call_method(eng, recv, meth, args, kwargs, fr, node):
             return recv
         if meth == "format" and eng.entails(st, T.is_VStr(v)):
             recv = mk_str(T.sval(v))
-        if recv.k == "V" and meth in ("split", "replace"):
+        if recv.k == "V" and meth in ("split", "replace", "strip"):
             hook = eng.reg.spec.get("__strmeth__")
             if hook:
                 r = hook(eng, fr, recv, meth, args, node)
